@@ -14,6 +14,8 @@ import DarkluaModel.Rules.ComputeExpression
 import DarkluaModel.Rules.ConvertIndexToField
 import DarkluaModel.Rules.NilDeclaration
 import DarkluaModel.Rules.UnusedVariable
+import DarkluaModel.Rules.UnusedVariableHeap
+import DarkluaModel.Rules.NilDeclarationHeap
 /-! Line-protocol handlers for property C01:
 * `c01.rule <rule-name-hex> <block>` → transformed block (the evaluator instance is the C08 model
   over IEEE doubles, `Rules/EvalC08.lean`);
@@ -59,7 +61,7 @@ def h8Region (b : Block) : Option String :=
   let h : Expr → Option String → Expr × Option String := fun e s =>
     (e, match s with
       | some w => some w
-      | none => if C08.h8 Evaluator.floatEvalOps e then none else some "H8 of the evaluator (C08: F1-F4)")
+      | none => if C08.h8 Evaluator.floatEvalOps e then none else some "H8 of the evaluator (C08: reference equality of fresh tables across effects)")
   (Visitor.runDefault ({ expr := h, pref := h, target := h, node := h } : Processor (Option String)) b none).2
 
 /-- the hypothesis `H` of the rule's theorem on this block: `in`, or `out <why>` -/
@@ -90,6 +92,20 @@ def handle (op : String) (args : List String) : String :=
     match nameOfSexp? name, Block.ofSexp? block with
     | some n, some b => region n b
     | _, _ => "bad-request"
+  | "ndguard", some [block] =>
+    -- hypothesis `H` of `rule_refines_remove_nil_declaration_partial`
+    match Block.ofSexp? block with
+    | some b =>
+      if (Rules.NilDeclaration.Guarded.applyG driverApi b).toSexp.toString
+          == (Rules.NilDeclaration.apply driverApi b).toSexp.toString then "in" else "out"
+    | none => "bad-request"
+  | "uvguard", some [block] =>
+    -- hypothesis `H` of `rule_refines_remove_unused_variable_partial`: does the rule agree with its guarded version?
+    match Block.ofSexp? block with
+    | some b =>
+      if (Rules.UnusedVariable.Guarded.applyG driverApi b).toSexp.toString
+          == (Rules.UnusedVariable.apply driverApi b).toSexp.toString then "in" else "out"
+    | none => "bad-request"
   | "rules", _ => " ".intercalate modelled
   | _, _ => "unknown-op " ++ op
 
